@@ -5,10 +5,11 @@
 (* also be undeclared with xmlns=""): the same namespace redeclared down a *)
 (* path, default declarations interleaved with prefixed ones, an attribute *)
 (* that needs a prefixed binding while default bindings cover the          *)
-(* elements (C15, C10, C09).  One initial state per layout; TLC checks the *)
+(* elements (C15, C10, C09), optionally followed by a sibling s of c.  TLC  *)
+(* checks on every layout that the                                         *)
 (* scope definitions agree and prints the forest.                          *)
 (***************************************************************************)
-EXTENDS XotTree, TLC, Json
+EXTENDS XotNsL2, TLC, Json
 CONSTANT Dump
 E(ns, ln, p, c) == [k |-> "elem", p |-> p, c |-> c, ns |-> ns, ln |-> ln, t |-> <<>>, u |-> "", d |-> FALSE]
 NSN(px, u, p) == [k |-> "nsn", p |-> p, c |-> <<>>, ns |-> "", ln |-> px, t |-> <<>>, u |-> u, d |-> FALSE]
@@ -17,20 +18,33 @@ Decls(d0, dp) == (IF d0 = "-" THEN <<>> ELSE <<<<"", d0>>>>) \o (IF dp = "-" THE
 Add(N, parent, nd) == [Append(N, [nd EXCEPT !.p = parent]) EXCEPT ![parent].c = Append(@, Len(N) + 1)]
 RECURSIVE AddDecls(_, _, _, _)
 AddDecls(N, e, D, j) == IF j > Len(D) THEN N ELSE AddDecls(Add(N, e, NSN(D[j][1], D[j][2], 0)), e, D, j + 1)
-Mk(n1, D1, n2, D2, n3, D3, an) ==
+Mk(n1, D1, n2, D2, n3, D3, an, sn) ==
     LET N1 == AddDecls(<<E(n1, "a", 0, <<>>)>>, 1, D1, 1)
         b == Len(N1) + 1
         N2 == AddDecls(Add(N1, 1, E(n2, "b", 0, <<>>)), b, D2, 1)
         c == Len(N2) + 1
         N3 == AddDecls(Add(N2, b, E(n3, "c", 0, <<>>)), c, D3, 1)
-    IN Add(N3, c, AT(an, "x", 0))
-VARIABLE F
-Init == \E a0 \in {"-", "u1", ""}, ap \in {"-", "u1"}, b0 \in {"-", "u1", ""}, bp \in {"-", "u1"}, c0 \in {"-", "u1", ""}, cp \in {"-", "u1"},
-           n1 \in {"", "u1"}, n2 \in {"", "u1"}, n3 \in {"", "u1"}, an \in {"", "u1"} :
-        F = [n |-> Mk(n1, Decls(a0, ap), n2, Decls(b0, bp), n3, Decls(c0, cp), an), cons |-> TRUE, eo |-> FALSE]
-Next == UNCHANGED F
-Spec == Init /\ [][Next]_F
+        N4 == Add(N3, c, AT(an, "x", 0))
+    \* a sibling after the childless, declaration-carrying c: names written after an empty element's end tag
+    IN IF sn = "-" THEN N4 ELSE Add(N4, b, E(sn, "s", 0, <<>>))
+VARIABLES F, outer
+vars == <<F, outer>>
+Blank == [n |-> <<>>, cons |-> TRUE, eo |-> FALSE]
+\* two steps so that TLC's workers share the layouts (see MCScope)
+Init == /\ F = Blank
+        /\ outer \in [a0 : {"-", "u1", ""}, ap : {"-", "u1"}, b0 : {"-", "u1", ""}, bp : {"-", "u1"}, n1 : {"", "u1"}]
+Next == /\ F = Blank
+        /\ outer' = outer
+        /\ \E c0 \in {"-", "u1", ""}, cp \in {"-", "u1"}, n2 \in {"", "u1"}, n3 \in {"", "u1"}, an \in {"", "u1"}, sn \in {"-", "", "u1"} :
+             F' = [n |-> Mk(outer.n1, Decls(outer.a0, outer.ap), n2, Decls(outer.b0, outer.bp), n3, Decls(c0, cp), an, sn), cons |-> TRUE, eo |-> FALSE]
+Spec == Init /\ [][Next]_vars
 ValidLayout == StructValidCore(F.n)
 ResolutionIsFunction == \A x \in Live(F.n) : \A p \in {"", "p", "xml"} : Cardinality(NsForPrefix(F.n, x, p)) <= 1
-DumpState == Dump => PrintT("STATE " \o ToJson(F))
+NsUniverse == {"u1", XmlNs}
+L2Scope == L2ScopeRefines(F.n) /\ L2PrefixForRefines(F.n, NsUniverse) /\ L2StackBalanced(F.n)
+L2Ser == L2SerRefines(F.n)
+L2Unres == L2UnresolvedRefines(F.n)
+L2CmpInv == L2CmpRefines(F.n)
+L2DedupInv == L2DedupRefines(F.n)
+DumpState == Dump /\ F # Blank => PrintT("STATE " \o ToJson(F))
 =============================================================================
